@@ -9,8 +9,8 @@
     (statements printed by Coq from the lemmas they are proved by - tools/mkprop.py; statements only) *)
 From Coq Require Import Permutation Sorted.
 From CC Require Import Base.Prelude Base.Alloc Base.Ledger Generated.Status Generated.Constants Generated.Guards.
-From CC Require Import Rbuf.RbufModel SPool.SPoolModel DPool.DPoolModel Array.ArrayModel Deque.DequeModel PQueue.PQueueModel Hash.HashModel Tst.TstModel Tree.TreeModel.
-From CC Require Import Array.ArrayMore DPool.DPoolProofs Deque.DequeProofs5 Hash.HashProofsE PQueue.PQueueProofs2 Rbuf.RbufProofs Tst.TstProofs4.
+From CC Require Import Rbuf.RbufModel SPool.SPoolModel DPool.DPoolModel Array.ArrayModel Deque.DequeModel PQueue.PQueueModel Hash.HashModel Tst.TstModel Tree.TreeModel List_.ListModel SList.SListModel.
+From CC Require Import Array.ArrayMore DPool.DPoolProofs Deque.DequeProofs5 Hash.HashProofsE List_.ListProofs6 PQueue.PQueueProofs2 Rbuf.RbufProofs SList.SListProofs5 Tst.TstProofs4.
 Local Open Scope N_scope.
 
 (** CC_Array: one operation *)
@@ -135,4 +135,57 @@ Theorem C14_dpool_malloc :
            end.
 Proof. exact CC.DPool.DPoolProofs.dp_malloc_spec. Qed.
 Print Assumptions C14_dpool_malloc.
+
+(** CC_List: derived lists are built with the source's allocator family (contents, result well formed, tag) *)
+Theorem C14_list_copy :
+  forall (f : N -> N) (keep : N -> bool) (s : clist) (l : list (N * N)) (a : alloc_st),
+         ListHeap.lrep s l ->
+         ListHeap.lok a ->
+         exists r : stat * option clist * alloc_st,
+           cl_copy_with f keep s a = Ok r /\
+           derived_ok (map f (filter keep (map snd l))) (l_mem s) a (live a) r.
+Proof. exact CC.List_.ListProofs6.copy_with_spec. Qed.
+Print Assumptions C14_list_copy.
+
+Theorem C14_list_filter :
+  forall (pred : N -> bool) (s : clist) (l : list (N * N)) (a : alloc_st),
+         ListHeap.lrep s l ->
+         ListHeap.lok a ->
+         l <> [] ->
+         exists r : stat * option clist * alloc_st,
+           cl_filter pred s a = Ok r /\ derived_ok (filter pred (map snd l)) (l_mem s) a (live a) r.
+Proof. exact CC.List_.ListProofs6.filter_spec. Qed.
+Print Assumptions C14_list_filter.
+
+(** CC_SList *)
+Theorem C14_slist_copy :
+  forall (f : N -> N) (keep : N -> bool) (s : slist) (l : list (N * N)) (a : alloc_st),
+         SListHeap.srep s l ->
+         ListHeap.lok a ->
+         exists r : stat * option slist * alloc_st,
+           sl_copy_with f keep s a = Ok r /\
+           sderived_ok (map f (filter keep (map snd l))) (sl_mem s) a (live a) r.
+Proof. exact CC.SList.SListProofs5.scopy_with_spec. Qed.
+Print Assumptions C14_slist_copy.
+
+Theorem C14_slist_filter :
+  forall (pred : N -> bool) (s : slist) (l : list (N * N)) (a : alloc_st),
+         SListHeap.srep s l ->
+         ListHeap.lok a ->
+         l <> [] ->
+         exists r : stat * option slist * alloc_st,
+           sl_filter pred s a = Ok r /\ sderived_ok (filter pred (map snd l)) (sl_mem s) a (live a) r.
+Proof. exact CC.SList.SListProofs5.sfilter_spec. Qed.
+Print Assumptions C14_slist_filter.
+
+Theorem C14_slist_sublist :
+  forall (s : slist) (l1 mid l3 : list (N * N)) (a : alloc_st),
+         SListHeap.srep s (l1 ++ mid ++ l3) ->
+         ListHeap.lok a ->
+         mid <> [] ->
+         exists r : stat * option slist * alloc_st,
+           sl_sublist s (lenN l1) (lenN l1 + lenN mid - 1) a = Ok r /\
+           sderived_ok (map snd mid) (sl_mem s) a (live a) r.
+Proof. exact CC.SList.SListProofs5.ssublist_spec. Qed.
+Print Assumptions C14_slist_sublist.
 
